@@ -103,7 +103,9 @@ macro_rules! impl_timestamp_96 {
           Err(e) => {
             let dur = e.duration();
             let complement_nanos = dur.subsec_nanos();
-            let ceil_secs = -(dur.as_secs() as i64);
+            // as_secs() can be 2^63 (the earliest SystemTime); its negation
+            // is i64::MIN, which wrapping_neg yields without overflowing
+            let ceil_secs = (dur.as_secs() as i64).wrapping_neg();
             if complement_nanos == 0 {
               (ceil_secs, 0)
             } else {
@@ -127,10 +129,11 @@ macro_rules! impl_timestamp_96 {
           let dur = Duration::new(seconds as u64, subsec_nanos);
           UNIX_EPOCH + dur
         } else {
+          // seconds can be i64::MIN, whose negation does not fit in an i64
           let dur = if subsec_nanos == 0 {
-            Duration::new((-seconds) as u64, 0)
+            Duration::new(seconds.unsigned_abs(), 0)
           } else {
-            Duration::new((-seconds - 1) as u64, BILLION_U32 - subsec_nanos)
+            Duration::new((-(seconds + 1)) as u64, BILLION_U32 - subsec_nanos)
           };
           UNIX_EPOCH - dur
         };
